@@ -42,7 +42,8 @@ class ScopeLifeDriver:
             # entering, and a disposable that yields nothing is entered / exited like any other
             silent = self.nd >= 3 and i == 2
             self.disps.append(Disp(w, f"d{i}", yields=[] if silent else [("B", i)], enter=en, exit=ex,
-                                   shape="none" if silent else ("auto" if i % 2 else "list")))
+                                   shape="none" if silent else ("auto" if i % 2 else "list"),
+                                   spawns="c1" if i == 1 and init.get("esp") else None))
         w.start("1")
         w.do("1", "sscope", 100, [("A", 1)], None)
         w.do("1", "try")
@@ -121,10 +122,11 @@ def gen_trace(rnd, nd=4, nc=3):
     beh = ["ok", "ok", "susp", "susp", "fail"]
     cfg = [dict(en=rnd.choice(beh), ex=rnd.choice(beh)) for _ in range(nd)]
     d = ScopeLifeDriver()
-    d.reset(dict(cfg=cfg, x=dict(ch=[0] * nc)))
-    tr = [dict(ev="Init", init=dict(cfg=cfg))]
+    esp = rnd.random() < 0.4
+    d.reset(dict(cfg=cfg, esp=esp, x=dict(ch=[0] * nc)))
+    tr = [dict(ev="Init", init=dict(cfg=cfg, esp=esp))]
     cancelled = False
-    born = 0
+    born = 1 if esp else 0
 
     def log(name, args):
         o = d.apply(name, tuple(args))
@@ -152,7 +154,7 @@ def gen_trace(rnd, nd=4, nc=3):
                 for u in range(1, born + 1):
                     if o["ch"][u - 1] == "run":
                         ch += [("ChildEnd", [u])] * 2 + [("ChildFail", [u])]
-            if not cancelled and ph in ("entering", "body", "exiting", "waiting"):
+            if not cancelled and ph in ("entering", "rollback", "body", "exiting", "waiting"):
                 ch += [("Cancel", [])]
             if not ch:
                 break
@@ -168,9 +170,9 @@ def gen_trace(rnd, nd=4, nc=3):
 
 
 TRACE_KW = dict(
-    variables=["cfg", "x", "obs"],
+    variables=["cfg", "esp", "x", "obs"],
     constants=dict(ND=4, NC=3, Behaviours='{"ok", "fail", "susp"}', Bug='"none"'),
-    config_vars=["cfg"],
+    config_vars=["cfg", "esp"],
     actions=dict(Enter=0, ReleaseEnter=2, ReleaseExit=2, Leave=1, Spawn=1, ChildEnd=1, ChildFail=1, Cancel=0),
     invariants=["Restored", "BodyExcIdentity", "EnterOnce", "ExitOnce", "ExitArg", "EnterFailureNoBody", "SurfaceCleanup",
                 "CancelNotLost", "CancelAbortsMembers", "NoWaitAfterFailure", "DisposableStateVisible"])
@@ -180,7 +182,7 @@ def replay(rep, record):
     from harness.graph import parse_label
     d = ScopeLifeDriver()
     d.reset(record["init"])
-    print("  disposables:", record["init"]["cfg"])
+    print("  disposables:", record["init"]["cfg"], " first one spawns a task while entering:", record["init"].get("esp"))
     try:
         for lab in record["path"]:
             name, args = parse_label(lab)
